@@ -1,6 +1,7 @@
 import IodineModel.Props.C12
 import IodineModel.Props.C13
 import IodineModel.Lemmas.HsSys
+import IodineModel.Lemmas.HsRef
 /-
 C06 — the client survives arbitrary replies (memory safety, termination).  PARTIAL.
 
@@ -67,6 +68,10 @@ replies, through the validated path of C13. -/
 the inputs `inps` (what each `select` returned) -/
 def handshakeRun (c : Client.Cli) (args : Client.HsArgs) (pw dev : List Nat) (inps : List Client.CInput) : Client.HState :=
   inps.foldl (fun s i => (Client.hstep s i).1) (Client.hsStart c args pw dev).1
+
+/-- the machine in state `s` driven by inputs -/
+def handshakeStepRun (s : Client.HState) (inps : List Client.CInput) : Client.HState :=
+  inps.foldl (fun s i => (Client.hstep s i).1) s
 
 /-- number of `select` timeouts in an input sequence -/
 def ticks (inps : List Client.CInput) : Nat :=
@@ -158,6 +163,56 @@ example :
 
 example : (handshakeRun exampleCli ⟨true, true, 0⟩ [] [] (List.replicate 162 .tick)).pos = none :=
   handshake_terminates _ _ _ _ _ (by decide +kernel)
+
+/-- **`handshake_reply_residue_free`.**  `handshake_waitdns` decodes EVERY datagram — fitting or not — into the `in[]` of the function that
+waits, so earlier and ignored replies do leave bytes there.  Since the repair ee87c7d no handshake function looks at a byte of `in[]` behind
+the length of the reply at hand (the length tests are written out in `Client/Handshake.lean`), and the machine, diffed against the real
+function on every op, keeps nothing else.  Hence, for every state in which the handshake runs:
+ * the step does not depend on the content of `in[]` at the time the `select` returns — whatever earlier replies wrote there;
+ * it depends on the reply only through `read_dns_withq`'s return value, the id, the first character of the question name, the RCODE and the
+   first `min(read, buflen)` decoded bytes (the record type and anything behind `read` are not looked at).
+(Before the repair this was false: `BAD` after an ignored `BADLEN…` was read as `BADLEN` — the example below is that op sequence.) -/
+theorem handshake_reply_residue_free :
+    (∀ (s : Client.HState) (residue : List Nat) (inp : Client.CInput), s.pos ≠ none →
+      Client.hstep { s with inb := residue } inp = Client.hstep s inp) ∧
+    (∀ (s : Client.HState) (p : Client.HPos) (q q' : Client.Rq), s.pos = some p →
+      q.rv = q'.rv → q.id = q'.id → q.rcode = q'.rcode → q.name0 = q'.name0 →
+      q.buf.take (min q.rv.toNat p.wait.2.2) = q'.buf.take (min q.rv.toNat p.wait.2.2) →
+      Client.hstep s (.rq q) = Client.hstep s (.rq q')) :=
+  ⟨fun s x inp hp => Client.hstep_residue_free s x inp hp,
+   fun s p q q' hp h1 h2 h3 h4 h5 => Client.hstep_reply_prefix s p hp q q' h1 h2 h3 h4 h5⟩
+
+/-- The length guards are what makes the above true of the C text, not only of the machine: put ANY bytes `junk` behind the reply in `in[]`
+(what earlier replies or the stack left there) — `fragsize_check`, the literal comparisons of the four switch handshakes and the check-string
+test decide as on the reply alone. -/
+theorem handshake_length_guards_suffice (s : Client.HState) (buf junk : List Nat) (hi : s.inb = buf ++ junk) :
+    (∀ pr m, Client.fragsizeCheck s buf.length pr m = Client.fragsizeCheck { s with inb := buf } buf.length pr m) ∧
+    (∀ lit, s.inIsN buf.length lit = ({ s with inb := buf } : Client.HState).inIsN buf.length lit) ∧
+    (0 < buf.length → Client.checkReply s buf.length = Client.checkReply { s with inb := buf } buf.length) := by
+  refine ⟨fun pr m => ?_, fun lit => ?_, fun hp => ?_⟩
+  · rw [Client.fragsizeCheck_junk s buf junk hi, Client.fragsizeCheck_reply { s with inb := buf } buf rfl]
+  · rw [Client.inIsN_junk s buf junk hi, Client.inIsN_junk { s with inb := buf } buf [] (List.append_nil buf).symm]
+  · rw [Client.checkReply_reply s buf junk hi hp,
+      Client.checkReply_reply { s with inb := buf } buf [] (List.append_nil buf).symm hp]
+
+/-- the example client waiting for the answer to its first `s` (switch to Base64) query, id 4242 -/
+def exampleSwitchWait : Client.HState :=
+  { c := { exampleCli with chunkid := 4242, doQtype := 10 }, pos := some (.switchCodec 6 0), inb := [], args := ⟨false, true, 0⟩, pw := [], dev := [] }
+
+/-- non-vacuity, the op sequence of the repaired defect: an unfitting reply `BADLEN` (other id: ignored), then the fitting 3-byte reply
+`BAD` — it is NOT read as `BADLEN`: the codec is switched; a fitting `BADLEN` still refuses -/
+example :
+    (handshakeStepRun exampleSwitchWait [.rq ⟨6, 7, 10, 0, 115, Client.ascii "BADLEN"⟩]).pos = some (.switchCodec 6 0) ∧
+    (handshakeStepRun exampleSwitchWait [.rq ⟨6, 7, 10, 0, 115, Client.ascii "BADLEN"⟩, .rq ⟨3, 4242, 10, 0, 115, Client.ascii "BAD"⟩]).c.dataenc = .b64 ∧
+    (handshakeStepRun exampleSwitchWait [.rq ⟨6, 4242, 10, 0, 115, Client.ascii "BADLEN"⟩]).c.dataenc = .b32 := by
+  decide +kernel
+
+/-- non-vacuity for the guards: a correct 2-byte answer to a probe of size 2 with junk behind it is accepted (`in[2]`, `in[3]` are not looked
+at), a 1-byte answer is "no fragsize in this reply" whatever follows it -/
+example :
+    Client.fragsizeCheck { exampleSwitchWait with inb := [0, 2] ++ [55, 66] } 2 2 0 = (2, true) ∧
+    Client.fragsizeCheck { exampleSwitchWait with inb := [0] ++ [2, 107] } 1 2 0 = (0, false) := by
+  decide +kernel
 
 /-- **`handshake_commands_validated`** (the C13 link).  Every `system()` call of the handshake machine — in ANY state, on ANY input —
 happens while it waits for the login reply, and the command is one `Shell.loginStep` builds from a login reply that passed the validation
